@@ -435,6 +435,25 @@ func driveInflatePoly(r *rand.Rand, w *writer, n int) {
 	for i := 0; i < n; i++ {
 		e := &InflateEv{Ev: "Inflate", Chk: chkFor("C05"), Api: []string{"InflatePaths64", "ClipperOffset"}[r.Intn(2)],
 			Paths: validPolySet(r), Jt: r.Intn(4), Et: 0, Miter4: []int64{4, 6, 8, 12, 20}[r.Intn(5)]}
+		if r.Intn(3) == 0 {
+			// any spelling of a ring: a vertex repeated, the first vertex repeated once or twice at the end
+			for k := range e.Paths {
+				q := e.Paths[k]
+				if len(q) < 3 || r.Intn(2) == 0 {
+					continue
+				}
+				switch r.Intn(3) {
+				case 0:
+					j := r.Intn(len(q))
+					q = append(append(append(Path{}, q[:j+1]...), q[j]), q[j+1:]...)
+				case 1:
+					q = append(append(Path{}, q...), q[0])
+				default:
+					q = append(append(Path{}, q...), q[0], q[0])
+				}
+				e.Paths[k] = q
+			}
+		}
 		if r.Intn(2) == 0 { // any order of the paths: holes before their outer boundary, islands first, ...
 			r.Shuffle(len(e.Paths), func(a, b int) { e.Paths[a], e.Paths[b] = e.Paths[b], e.Paths[a] })
 		}
@@ -451,11 +470,24 @@ func driveInflatePoly(r *rand.Rand, w *writer, n int) {
 		if e.Api == "ClipperOffset" {
 			e.Split = r.Intn(3)
 			if e.Split > 0 && e.Split < len(e.Paths) {
+				clean := make(Paths, len(e.Paths)) // validity is judged on the rings without their repeated points
+				for k, q := range e.Paths {
+					var c Path
+					for _, v := range q {
+						if len(c) == 0 || c[len(c)-1] != v {
+							c = append(c, v)
+						}
+					}
+					for len(c) > 1 && c[len(c)-1] == c[0] {
+						c = c[:len(c)-1]
+					}
+					clean[k] = c
+				}
 				g := int64(1)
-				if !validSetG(e.Paths, 1) {
+				if !validSetG(clean, 1) {
 					g = -1
 				}
-				if !(validSetG(e.Paths[:e.Split], g) && validSetG(e.Paths[e.Split:], g)) {
+				if !(validSetG(clean[:e.Split], g) && validSetG(clean[e.Split:], g)) {
 					e.Split = 0 // every group must be a valid polygon set of the same orientation on its own
 				}
 			}
